@@ -23,6 +23,16 @@ type Stage struct {
 // chainSubEffects lets genChain give commands an argument sub-shell with a visible side effect (C04 only)
 var chainSubEffects bool
 
+// chainNegExits adds functions ending with a negative exit number (a failure in the normal run mode; C04 only)
+var chainNegExits bool
+
+func fnName(exit int) string {
+	if exit < 0 {
+		return fmt.Sprintf("vfm%d", -exit)
+	}
+	return fmt.Sprintf("vf%d", exit)
+}
+
 // Unit is a pipeline (1..n stages) with the operator joining it to its predecessor
 type Unit struct {
 	Join   string   `json:"j"` // "" (first) ";" "\n" "&&" "||"
@@ -35,6 +45,8 @@ function vf1 { out $1; return 1 }
 function vf2 { out $1; return 2 }
 function vf3 { out $1; return 3 }
 function vf7 { out $1; return 7 }
+function vfm1 { out $1; return -1 }
+function vfm3 { out $1; return -3 }
 function vtg { <stdin> -> set s; out "<$s>" }
 `
 
@@ -49,9 +61,9 @@ func (s Stage) src() string {
 		return "out " + s.Tag
 	case "fn":
 		if s.Sub != "" {
-			return fmt.Sprintf("vf%d %s${err %s}", s.Exit, s.Tag, s.Sub)
+			return fmt.Sprintf("%s %s${err %s}", fnName(s.Exit), s.Tag, s.Sub)
 		}
-		return fmt.Sprintf("vf%d %s", s.Exit, s.Tag)
+		return fmt.Sprintf("%s %s", fnName(s.Exit), s.Tag)
 	case "err":
 		return "err " + s.Tag
 	case "tg":
@@ -129,7 +141,11 @@ func genChain(r *rand.Rand, maxCmds int, wantLogic bool) []Unit {
 				if sub != "" {
 					*stderrUsed = true
 				}
-				return Stage{Kind: "fn", Tag: t, Exit: fnExits[r.Intn(len(fnExits))], Sub: sub}
+				ex := fnExits[r.Intn(len(fnExits))]
+				if chainNegExits && r.Intn(6) == 0 {
+					ex = []int{-1, -3}[r.Intn(2)]
+				}
+				return Stage{Kind: "fn", Tag: t, Exit: ex, Sub: sub}
 			case k < 8:
 				if *stderrUsed {
 					continue
